@@ -38,11 +38,11 @@ Proof. exact not_ctcp_exact. Qed.
 Print Assumptions C14_not_ctcp.
 
 (* The reply discipline, default handler table, any environment (Config.Version/Name, runtime
-   texts, clock): for every event the CTCP stage of RunHandlers writes at most one event, and
+   texts, clock, connected or not): for every event the CTCP stage of RunHandlers writes at most one event, and
    if it writes one then the event was a PRIVMSG that decodes as CTCP, has a source, is not
    ACTION, has a default replier or else a source that is a valid nickname; the output is a
    source-less NOTICE to the folded nickname of the requester carrying a CTCP payload. *)
-Theorem C14_replies : forall v e outs, connected v = true ->
+Theorem C14_replies : forall v e outs,
   ctcp_stage (default_table v) e = Ok outs ->
   (length outs <= 1)%nat /\
   forall o, In o outs ->
@@ -51,14 +51,14 @@ Theorem C14_replies : forall v e outs, connected v = true ->
       c_command c <> CTCP_ACTION /\
       (known_query (c_command c) \/ is_valid_nick (to_rfc1459 name) = true) /\
       is_answer_to name o.
-Proof. exact stage_discipline. Qed.
+Proof. exact stage_discipline_any. Qed.
 Print Assumptions C14_replies.
 
 (* ... and exactly which answer: the stage's output is the one the relation `answers` of
    Spec/CtcpSpec.v determines (known query -> its reply text; unknown, not ACTION, valid nick
    -> ERRMSG; otherwise nothing). *)
-Theorem C14_replies_exact : forall v e outs, connected v = true ->
-  (ctcp_stage (default_table v) e = Ok outs <-> answers v e outs).
+Theorem C14_replies_exact : forall v e outs,
+  ctcp_stage (default_table v) e = Ok outs <-> answers v e outs.
 Proof. exact stage_exact. Qed.
 Print Assumptions C14_replies_exact.
 
@@ -70,28 +70,18 @@ Print Assumptions C14_notice_silent.
 (* Two clients can never drive each other into a reply loop: the stage applied to anything
    that carries the command of one of its own outputs - with any source, any parameters, in
    any environment - yields nothing. *)
-Theorem C14_no_loop : forall v e outs o, connected v = true ->
+Theorem C14_no_loop : forall v e outs o,
   ctcp_stage (default_table v) e = Ok outs -> In o outs ->
   forall v' src params, ctcp_stage (default_table v') (mk_event src (ev_command o) params) = Ok [].
 Proof. exact no_loop. Qed.
 Print Assumptions C14_no_loop.
 
-(* The stage cannot panic on a connected client (no nil source dereference, no empty CTCP
-   type handed to SendCTCPReply, no index out of range) ... *)
-Theorem C14_never_panics : forall v e, connected v = true ->
-  exists outs, ctcp_stage (default_table v) e = Ok outs.
-Proof. exact stage_total. Qed.
+(* The stage cannot panic, connected or not (no nil source dereference, no empty CTCP type
+   handed to SendCTCPReply, no index out of range; since 187fc3e handleCTCPFinger answers
+   nothing when client.conn is nil - `answers` says so through finger_unanswerable). *)
+Theorem C14_never_panics : forall v e, exists outs, ctcp_stage (default_table v) e = Ok outs.
+Proof. exact stage_total_any. Qed.
 Print Assumptions C14_never_panics.
-
-(* ... and the one panic the current code has is characterised exactly: a FINGER request with
-   a source handled while client.conn is nil (handleCTCPFinger reads client.conn.lastActive;
-   DESIGN.md findings row 21). *)
-Theorem C14_panic_exact : forall v e,
-  ctcp_stage (default_table v) e = Panic <->
-  connected v = false /\ ev_command e = PRIVMSG /\
-  exists c name, ctcp_message e c /\ c_command c = CTCP_FINGER /\ ev_source e = Some name.
-Proof. exact stage_panic_iff. Qed.
-Print Assumptions C14_panic_exact.
 
 (* ---- handlers registered by the program (Set / SetBg / Clear / ClearAll) ---- *)
 
@@ -202,7 +192,7 @@ Print Assumptions C14_send_bad_type.
 
 (* Any sequence of incoming events: the answers are at most one per PRIVMSG in it, every one
    a source-less NOTICE answering a sourced PRIVMSG of the sequence. *)
-Theorem C14_history : forall v inbox outs, connected v = true ->
+Theorem C14_history : forall v inbox outs,
   stage_all (default_table v) inbox = Ok outs ->
   (length outs <= length (filter (fun e => streqb (ev_command e) PRIVMSG) inbox))%nat /\
   Forall (fun o => ev_command o = NOTICE /\ ev_source o = None /\
@@ -213,8 +203,20 @@ Print Assumptions C14_history.
 
 (* Two clients alone on a network (Spec/CtcpSpec.v `volley`): whatever arrives at A, however
    many rounds of mutual answering are allowed, the exchange ends after A's own answers. *)
-Theorem C14_two_clients : forall va vb na nb inbox rounds, connected va = true -> (2 <= rounds)%nat ->
+Theorem C14_two_clients : forall va vb na nb inbox rounds, (2 <= rounds)%nat ->
   exists outs, stage_all (default_table va) inbox = Ok outs /\
     volley rounds va vb na nb inbox = Ok (outs, true).
 Proof. exact volley_ends. Qed.
 Print Assumptions C14_two_clients.
+
+(* ---- isolation between the stages of RunHandlers ---- *)
+
+(* Model/Ctcp.v run_handlers: every ordinary handler works on a copy of the event, DecodeCTCP on
+   another one.  Whatever handlers do to the event they were given (first component of their
+   result), the CTCP part of what RunHandlers writes is the stage applied to the event as
+   received: the answer still goes to the original source.  (That RunHandlers really makes
+   these copies is what the mutating handlers of suites ctcp.replies / ctcp.table check.) *)
+Theorem C14_dispatch_isolation : forall hs t e,
+  run_handlers hs t e = (c <- ctcp_stage t e ;; Ok (flat_map (fun h => snd (h e)) hs ++ c)).
+Proof. exact run_handlers_isolated. Qed.
+Print Assumptions C14_dispatch_isolation.
